@@ -28,6 +28,10 @@ TAGSCORERS = [("vaporetto::char_scorer::boundary_tag_scorer::CharScorerBoundaryT
 
 def run(chk):
     w = C.world_for(chk)
+    # which model table and which window size reach which scorer (shared with C09)
+    from . import c09 as _c09w
+    chk.rule("R09.1", "Predictor::new hands every scorer its own tables and window size (shared with C09)")
+    _c09w.r091_predictor(chk, w)
     from . import ctors as _ctors
     _ctors.run(chk, w, only=["TagPredictor::new", "PositionalWeight::new"])
     for rid, txt in (("R06.1", "argmax: strict comparison, first index wins ties, slice-relative index"), ("R06.2", "score-slot consumption agrees in predictor, accessor and trainer"),
